@@ -2,7 +2,7 @@
 from core import run_cases
 
 MODULES = ["Props.C09"]
-THEOREMS = ["Props.C09.saveMember_consistent", "Props.C09.c09_consistent"]
+THEOREMS = ["Props.C09.saveMember_consistent", "Props.C09.c09_consistent", "Props.C09.c09_csv_content"]
 
 
 def run(check, tier):
